@@ -555,6 +555,12 @@ func main() {
 		workerMain(os.Args[2], os.Args[3])
 		return
 	}
+	for _, a := range os.Args[1:] {
+		if strings.HasPrefix(a, "--racepass=") {
+			racePassMain(strings.TrimPrefix(a, "--racepass="))
+			return
+		}
+	}
 	r := ev.Start("C18", "exploration")
 	if wd := os.Getenv("C18_WATCHDOG"); wd != "" {
 		fullWatchdog, _ = time.ParseDuration(wd)
@@ -581,11 +587,21 @@ func main() {
 		var rec struct {
 			Key    string `json:"key"`
 			Replay struct {
-				Case Case `json:"case"`
+				Case Case   `json:"case"`
+				API  string `json:"api"`
 			} `json:"replay"`
 		}
 		if err := json.Unmarshal(b, &rec); err != nil {
 			ev.HarnessError("%v", err)
+		}
+		if rec.Replay.API == "racepass" {
+			info := runRacePass(r)
+			cleanup()
+			fmt.Fprintf(ev.Out, "replay: free-running race-detector pass: %v, findings: %d\n", info["scenarios"], r.Violations())
+			if r.Violations() > 0 {
+				os.Exit(1)
+			}
+			os.Exit(0)
 		}
 		p := newProc(0)
 		res := p.run(&rec.Replay.Case)
@@ -912,6 +928,14 @@ func main() {
 		r.Report(c.key, v.What+note+fmt.Sprintf(" [case: ctx=%s template=%s family=%s; %d cases share this key]", cs.Ctx, cs.Tmpl, cs.Family, t.violCases[c.key]), rep)
 	}
 
+	// free-running pass under the race detector (second binary)
+	raceInfo := map[string]interface{}{"skipped": "C18_ONLY set"}
+	if only := os.Getenv("C18_ONLY"); (only == "" || strings.Contains(only, "race")) && !r.Capped {
+		tr := time.Now()
+		raceInfo = runRacePass(r)
+		raceInfo["wall_s"] = float64(int(time.Since(tr).Seconds()*10)) / 10
+	}
+
 	oc := map[string]int{}
 	for k, v := range t.outcomes {
 		oc[k] = v
@@ -938,6 +962,7 @@ func main() {
 		"oracle_selftests_passed":  t.selfOK,
 		"samples":                  samples.L,
 		"confirmation_runs":        confRuns,
+		"race_pass":                raceInfo,
 		"watchdog_s":               fullWatchdog.Seconds(),
 		"suspect_watchdog_s":       map[string]float64{"net": float64(suspectNetMs) / 1e3, "lib": float64(suspectLibMs) / 1e3},
 		"worker_cpu_net_s":         float64(t.usNet) / 1e6,
